@@ -109,6 +109,11 @@ class Hist:
             else:
                 run(self.root.set_node(n, nm.create_from_cap(None, UNKNOWN_CAP)))
                 self.dir0[n] = entry("unk")
+        # overlapping requests: the parked storage calls are delivered in a seeded random order in half of the piped histories
+        self.order = "fifo"
+        if profile == "piped" and rng.random() < 0.5:
+            self.order = "random"
+            g.policy = random.Random(rng.getrandbits(32))
         self.handler = sftpd.SFTPUserHandler(SClient(g), self.root, "alice")
         self.events = []
         self.unanswered = []
@@ -219,7 +224,8 @@ class Hist:
         for _ in range(k):
             if not self.g.pending:
                 break
-            self.g.deliver(0)
+            c = self.g.choose()
+            self.g.deliver(c[1], c[2])
             settle()
 
     # ---- the requests --------------------------------------------------------------------------
@@ -372,7 +378,7 @@ class Hist:
         if x < 0.40:
             # a commit of more than 55 bytes is a CHK upload (several round trips), less is a LIT cap (none): the piped
             # profile needs commits that are still on their way when the next request arrives
-            big = rng.random() < (0.35 if self.profile == "piped" else 0.08)
+            big = rng.random() < (0.5 if self.profile == "piped" else 0.08)
             return self.op_write(self.pick("W"), rng.choice([0, 0, 1, 2, 3, 5, 8, 12]), self.rand_data(big=big)), False, None
         if x < 0.52:
             off, ln = rng.choice([(0, 1000), (0, 1000), (0, 1000), (rng.randint(0, 12), rng.randint(0, 8)), (rng.randint(0, 80), 1000)])
@@ -413,16 +419,53 @@ class Hist:
         p = {"t": "name", "n": name}
         other = {"t": "name", "n": rng.choice([n for n in NAMES if n != name])}
         x = rng.random()
-        if after_close and x < 0.35:
-            return self.op_open(p, self.rand_flags(p)), True
+        if after_close:
+            if x < 0.30:
+                return self.op_open(p, self.rand_flags(p)), True
+            if x < 0.50:
+                return self.op_stat(p), False
+            if x < 0.78:
+                return self.op_rename(p, other, rng.random() < 0.5), True
+            return self.op_remove(p), True
         if x < 0.6:
             return self.op_stat(p), False
         if x < 0.85:
             return self.op_rename(p, other, rng.random() < 0.5), True
         return self.op_remove(p), True
 
+    def template_reopen(self):
+        """scripted prefix of some piped histories: write a file, send its close and - before the close is answered -
+        open the same name again, then read through the new handle ("if a file has been written, then closed, and is now
+        being reopened, then we have to delay the open until the previous upload/publish has completed")"""
+        rng = self.rng
+        files = [n for n in NAMES if self.kinds[n] in ("imm", "mut")] or [n for n in NAMES if self.kinds[n] == "none"]
+        muts = [n for n in files if self.kinds[n] == "mut"]
+        if muts and rng.random() < 0.85:
+            p = {"t": "name", "n": rng.choice(muts)}
+        elif not files or (not muts and rng.random() < 0.5):
+            p = {"t": "uri", "n": "M1"}                  # the mutable file by its write cap
+        else:
+            p = {"t": "name", "n": rng.choice(files)}
+        n = p["n"]
+        rec = self.op_open(p, set("RWC") if self.kinds.get(n) == "none" else set(rng.choice(["RW", "W", "RWA"])))
+        self.wait(observe=True)
+        if self.hung or self.hs[rec["h"]]["obj"] is None:
+            return
+        self.op_write(rec["h"], rng.choice([0, 1, 3]), self.rand_data(big=rng.random() < 0.5))
+        self.wait(observe=False)
+        self.op_close(rec["h"])
+        if self.unanswered:
+            self.progress(rng.choice([0, 0, 0, 0, 1, 2, 4]))
+        rec2 = self.op_open(p, set(rng.choice(["R", "R", "RW"])))
+        self.wait(observe=True)
+        if not self.hung and self.hs[rec2["h"]]["obj"] is not None:
+            self.op_read(rec2["h"], 0, 1000)
+            self.wait(observe=False)
+
     def run(self, nreq):
         rng = self.rng
+        if self.profile == "piped" and rng.random() < 0.6:
+            self.template_reopen()
         while len(self.events) < nreq and not self.hung:
             rec, may_change, name = self.one_request()
             overlap = (self.profile == "piped" and name is not None and rng.random() < 0.6 and
@@ -448,7 +491,7 @@ class Hist:
     def trace(self):
         consts = {"names": NAMES, "handles": ["h%d" % i for i in range(1, self.nh + 1)] or ["h1"], "dir": self.dir0,
                   "mut": {f: list(c) for f, c in self.mut0.items()}, "ro": self.ro, "uri": self.uri,
-                  "profile": self.profile, "threshold": self.threshold, "sizerule": "contract", "tolerate": [], "idx": self.idx,
+                  "profile": self.profile, "order": self.order, "threshold": self.threshold, "sizerule": "contract", "tolerate": [], "idx": self.idx,
                   "hung": self.hung}
         return {"consts": consts, "events": self.events}
 
@@ -464,7 +507,7 @@ def main():
     ap.add_argument("--tier", default="quick")
     ap.add_argument("--n", type=int, default=100)
     ap.add_argument("--events", type=int, default=14)
-    ap.add_argument("--piped", type=float, default=0.4)
+    ap.add_argument("--piped", type=float, default=0.5)
     a = ap.parse_args()
     sftpd.noisy = False
     workdir = tempfile.mkdtemp(prefix="sftph", dir=os.getcwd())
